@@ -36,6 +36,18 @@ func (x *Exec) Drive(nops int, note string) []GenOp {
 	}
 	x.battery()
 	x.misuseBattery(nops)
+	// close what is still open; the world must be unlocked afterwards (checked by the monitor)
+	qids := []int{}
+	for id := range x.queries {
+		qids = append(qids, id)
+	}
+	sort.Ints(qids)
+	for k, id := range qids {
+		o := GenOp{Op: "QClose", Q: id, Add: []string{}, Rem: []string{}, Vals: FlexMap[int64]{}, Tg: FlexMap[int]{}, N: 1, Mode: "val",
+			Flt: GenFlt{With: []string{}, Without: []string{}, Ft: FlexMap[int]{}, Qt: FlexMap[int]{}}}
+		done = append(done, o)
+		x.emit(x.run(o, nops+100+k))
+	}
 	return done
 }
 
@@ -111,6 +123,41 @@ func (x *Exec) randomOp(maxEnt int) (GenOp, bool) {
 	}
 	if len(vs) == 0 {
 		kind = 0
+	}
+	if len(x.queries) > 0 {
+		// the world is locked by open queries: advance / close them, open more, write through Set,
+		// emit events, (un)register filters - and occasionally attempt a structural change (must panic)
+		qids := []int{}
+		for id := range x.queries {
+			qids = append(qids, id)
+		}
+		sort.Ints(qids)
+		r := x.rng.Intn(100)
+		switch {
+		case r < 55:
+			o := mk("QNext")
+			o.Q = qids[x.rng.Intn(len(qids))]
+			return o, true
+		case r < 68:
+			o := mk("QClose")
+			o.Q = qids[x.rng.Intn(len(qids))]
+			return o, true
+		case r < 78 && len(qids) < x.Cfg.Queries:
+			return x.randomQOpen(vs, mk), true
+		case r < 84 && len(vs) > 0:
+			kind = 53 + x.rng.Intn(7) // Set
+		case r < 90:
+			kind = 91 + x.rng.Intn(3) // RegF / UnregF
+		case r < 93 && x.Cfg.Observers > 0:
+			kind = 98
+		default:
+			// any structural operation: kind stays as drawn, excluding Shrink (undefined while locked)
+			if kind >= 94 && kind < 99 {
+				kind = x.rng.Intn(90)
+			}
+		}
+	} else if x.Cfg.Queries > 0 && x.rng.Intn(12) == 0 {
+		return x.randomQOpen(vs, mk), true
 	}
 	switch {
 	case kind < 16: // New
@@ -277,9 +324,39 @@ func (x *Exec) randomOp(maxEnt int) (GenOp, bool) {
 		o.Flt = x.randomFilter(vs, "")
 		o.Flt.Qt = FlexMap[int]{}
 		return o, true
+	case kind < 99 && x.Cfg.Observers > 0 && x.rng.Intn(2) == 0:
+		// observers: register / unregister / emit a custom event
+		ids := []int{}
+		for id := range x.obs {
+			ids = append(ids, id)
+		}
+		sort.Ints(ids)
+		switch {
+		case len(ids) < x.Cfg.Observers && x.rng.Intn(3) != 0:
+			o := mk("RegO")
+			o.O = 1
+			for x.obs[o.O] != nil {
+				o.O++
+			}
+			o.Obs = x.randomObserver()
+			return o, true
+		case len(ids) > 0 && x.rng.Intn(2) == 0:
+			o := mk("UnregO")
+			o.O = ids[x.rng.Intn(len(ids))]
+			return o, true
+		default:
+			o := mk("Emit")
+			o.Ev = []string{"Custom0", "Custom1"}[x.rng.Intn(2)]
+			if len(vs) > 0 && x.rng.Intn(5) != 0 {
+				v := vs[x.rng.Intn(len(vs))]
+				o.E = v.ord
+				o.Add = x.subset(v.list, 0)
+			}
+			return o, true
+		}
 	case kind < 99:
 		o := mk("Shrink")
-		o.Mode = []string{"all", "one"}[x.rng.Intn(2)]
+		o.Mode = []string{"all", "one", "loop"}[x.rng.Intn(3)]
 		return o, true
 	default:
 		if x.rng.Intn(4) != 0 {
@@ -362,3 +439,58 @@ func (x *Exec) randomFilter(vs []entView, must string) GenFlt {
 }
 
 var _ = ecs.Entity{}
+
+var eventNames = []string{"OnCreateEntity", "OnRemoveEntity", "OnAddComponents", "OnRemoveComponents", "OnSetComponents",
+	"OnAddRelations", "OnRemoveRelations", "Custom0", "Custom1"}
+
+// randomObserver draws an observer specification over the model components.
+func (x *Exec) randomObserver() GenObs {
+	comps := x.Cfg.Comps
+	o := GenObs{Ev: eventNames[x.rng.Intn(len(eventNames))], Obs: []string{}, With: []string{}, Without: []string{}}
+	cand := comps
+	if o.Ev == "OnAddRelations" || o.Ev == "OnRemoveRelations" {
+		cand = x.relNames()
+	}
+	for _, c := range cand {
+		if x.rng.Intn(3) == 0 && len(o.Obs) < 2 {
+			o.Obs = append(o.Obs, c)
+		}
+	}
+	for _, c := range comps {
+		switch x.rng.Intn(6) {
+		case 0:
+			o.With = append(o.With, c)
+		case 1:
+			o.Without = append(o.Without, c)
+		}
+	}
+	if x.rng.Intn(6) == 0 {
+		o.Excl = true
+		o.Without = []string{}
+	}
+	return o
+}
+
+func (x *Exec) randomQOpen(vs []entView, mk func(string) GenOp) GenOp {
+	o := mk("QOpen")
+	o.Q = 1
+	for x.queries[o.Q] != nil {
+		o.Q++
+	}
+	o.Flt = x.randomFilter(vs, "")
+	// sometimes through a registered filter
+	for id, rf := range x.filters {
+		if x.rng.Intn(2) == 0 {
+			o.F = id
+			o.Flt = rf.flt
+			o.Flt.Qt = FlexMap[int]{}
+			for _, c := range o.Flt.With {
+				if _, fixed := o.Flt.Ft[c]; isRelName(c) && !fixed && x.rng.Intn(2) == 0 {
+					o.Flt.Qt[c] = x.pickTarget(vs)
+				}
+			}
+			break
+		}
+	}
+	return o
+}
